@@ -719,6 +719,7 @@ func (c *wsConn) tryReconnect(ctx context.Context) bool {
 		attempts := 0
 		var conn *websocket.Conn
 		for conn == nil {
+			vhook("rc.sleep", c, "attempt", attempts)
 			time.Sleep(c.reconnectBackoff.next(attempts))
 			if ctx.Err() != nil {
 				vhook("rc.abort", c)
